@@ -619,6 +619,13 @@ def run(ck):
     ])
     ck.floor("C03-DICTRESET", 5)
     check_dict_siblings(ck, prog)
+    # a decoder (or a filter behind it) that is re-used for the next Block/Stream starts from what its init function
+    # stores, not from what the previous Block left (delta history, LZMA2 need_properties, ...)
+    ck.rule("C03-READFIRST", "decoders and filters: what the coding function can read before storing to it is stored by the init function on every path returning LZMA_OK")
+    reinit.check_read_first(ck, prog, "C03-READFIRST", files={
+        "delta_common.c", "simple_coder.c", "lzma2_decoder.c", "lzma_decoder.c", "lz_decoder.c", "block_decoder.c",
+        "stream_decoder.c", "index_decoder.c", "alone_decoder.c", "lzip_decoder.c"})
+    ck.floor("C03-READFIRST", 30)
     # state reset between LZMA2 chunks / Blocks initialises the whole model (shared with C01)
     from . import C01, C05
     C01.check_reset(ck, prog)
